@@ -106,7 +106,7 @@ def c03(chk):
         'buffer. On every Ok leaf the written bytes are ordered into a gap-free chain; C03.a: the last byte is the result of '
         'smbus_pec::pec over the view [0, len-1) of this same buffer, computed when exactly the final content was in place '
         '(no byte written afterwards), and the returned length ends right after it. C03.b (funnel): smbus_pec::pec is the '
-        'resolved callee, called for encoders from exactly one site. C03.d: the same PEC rule on every response process_packet generates. The thorough tier also checks the PEC routine\'s '
+        'resolved callee at every call site of the dependency (no other routine of it is used). C03.d: the same PEC rule on every response process_packet generates. The thorough tier also checks the PEC routine\'s '
         'structural parameters in its MIR and the Cargo.lock pin.')
     chk.rules_text = 'R-layout on the last written byte of every Ok leaf; who-may-call rule on smbus_pec::pec'
     chk.assumptions = ['quick tier: smbus_pec::pec is an uninterpreted function of the bytes it is given (which routine, over which bytes); thorough tier: its per-byte step is shown equal to CRC-8/0x07 on all 256 values and its loop skeleton is read from MIR (C03.c, C03.e)']
@@ -134,13 +134,9 @@ def c03(chk):
             t = b['term']
             if t['k'] == 'call' and t['callee']['crate'] == 'smbus_pec':
                 sites.append((key, t['callee']['path'], b['span']['at']))
-    enc_sites = [s for s in sites if 'to_raw_bytes' in s[0] or 'smbus_proto' in s[0]]
     chk.ob('C03.b', 'call sites of the PEC routine', all(s[1] == 'smbus_pec::pec' for s in sites) and len(sites) >= 1,
            chk.key('crate', 'C03.b', 'smbus_pec', 'callee:' + ','.join(sorted(set(s[1] for s in sites)))),
            'PEC is computed by %s, expected smbus_pec::pec' % sorted(set(s[1] for s in sites)))
-    chk.ob('C03.b', 'encoder-side PEC call sites', len(enc_sites) == 1,
-           chk.key('crate', 'C03.b', 'smbus_pec', 'encoder-sites:%d' % len(enc_sites)),
-           'the encoders compute the PEC at %d sites (%s), expected the single packet writer' % (len(enc_sites), enc_sites))
     chk.extra['pec_call_sites'] = [list(s) for s in sites]
     # C03.d: the responses process_packet generates are encoded packets too
     import proc_rules
